@@ -158,12 +158,18 @@ func (m *Model) Run(inputs Tensors) (Tensors, error) {
 	}
 
 	tensors := make(Tensors)
-	for inputName, inputTensor := range inputs {
-		tensors[inputName] = inputTensor
-	}
-
 	for parameterName, parameterTensor := range m.parameters {
 		tensors[parameterName] = parameterTensor
+	}
+
+	for inputName, inputTensor := range inputs {
+		// An initializer that is not declared as a graph input is a constant and
+		// cannot be overridden; one that is declared as an input is only a default.
+		if _, isParameter := m.parameters[inputName]; isParameter && !m.hasInput(inputName) {
+			continue
+		}
+
+		tensors[inputName] = inputTensor
 	}
 
 	for _, n := range m.mp.Graph.GetNode() {
